@@ -627,13 +627,51 @@ def main():
       done += 1
       yield mb, qt, None, desc, dict(info, real_stats=True, directed='respecified-rule')
 
+  def directed_same_name_sharers(n):
+    """constants tied across subgraphs whose tensors ALSO carry the same name
+    (the layer exported under two signatures keeps its variable name) x one
+    rule treating all sharers alike: results are keyed by tensor name, so this
+    must be refused or every sharer must agree with the rewritten bytes (C15)"""
+    if os.environ.get('VERIF_PROP') != 'C15':
+      return
+    from tensorflow.lite.tools import flatbuffer_utils as _FU
+    wops = ['FULLY_CONNECTED'] * 5 + ['CONV_2D'] * 2 + ['EMBEDDING_LOOKUP', 'ADD', 'RELU']
+    done = tries = 0
+    while done < n and tries < 10 * n:
+      tries += 1
+      mb, info = gg.gen_model(rng, n_subgraphs=rng.choice([2, 2, 3]), max_ops=rng.choice([2, 3, 4]),
+                              op_weights=wops, force_share=True)
+      m = _FU.read_model_from_bytearray(bytearray(mb))
+      users = collections.defaultdict(list)
+      for gi, g in enumerate(m.subgraphs):
+        for t in g.tensors:
+          if t.buffer and m.buffers[t.buffer].data is not None and len(m.buffers[t.buffer].data) and t.type == 0:
+            users[int(t.buffer)].append((gi, t))
+      tied = [l for l in users.values() if len(set(gi for gi, _ in l)) > 1]
+      if not tied:
+        continue
+      for l in tied:
+        for gi, t in l[1:]:
+          if gi != l[0][0]:
+            t.name = l[0][1].name
+      mb = bytes(_FU.convert_object_to_bytearray(m))
+      qt = quantizer.Quantizer(bytearray(mb))
+      cname = rng.choice(['wo8', 'wo8s', 'wo4', 'drq8', 'drq8t', 'fp16'])
+      alg, cfg = gr.named_configs()[cname]
+      desc = gr.apply_rules(qt, [('.*', rng.choice(['*', 'FULLY_CONNECTED']), alg, cname)])
+      if not desc:
+        continue
+      done += 1
+      yield mb, qt, None, desc, dict(info, real_stats=True, directed='same-name-sharers', only='C15:')
+
   import itertools
   for mb, qt, stats, desc, info in itertools.chain(
       cg.gen_cases(rng, n_models), directed_shared(1500 if tier == 'thorough' else 120),
       directed_overflow(12 if tier == 'thorough' else 3),
       directed_fp16_range(300 if tier == 'thorough' else 30),
       directed_same_tensor(400 if tier == 'thorough' else 40),
-      directed_respec(200 if tier == 'thorough' else 20)):
+      directed_respec(200 if tier == 'thorough' else 20),
+      directed_same_name_sharers(300 if tier == 'thorough' else 30)):
     dist['cases'] += 1
     if info.get('directed'):
       dist['directed:' + info['directed']] += 1
@@ -648,6 +686,8 @@ def main():
     except Exception as e:  # pylint: disable=broad-except
       import traceback
       bad = [{'key': 'HARNESS:error', 'what': traceback.format_exc()[-600:]}]
+    if info.get('only'):
+      bad = [b for b in bad if b['key'].startswith(info['only']) or b['key'].startswith('HARNESS')]
     for b in bad[:4]:
       viol.append(dict(b, input={'recipe': desc, 'case': dist['cases'],
                                  'model_hex': mb.hex() if len(mb) < 20000 else None}))
